@@ -229,7 +229,7 @@ pub fn run(ctx: &Ctx) -> i32 {
         property: "C05",
         tier: ctx.tier,
         seed: ctx.seed,
-        scenarios: ctx.tier.pick(600, 20_000),
+        scenarios: ctx.tier.pick(6_000, 200_000),
         threads: super::threads(),
         watchdog: Duration::from_secs(120),
         budget: Duration::from_secs(ctx.tier.pick(90, 900)),
